@@ -12,7 +12,11 @@
 //                                            allow = allowUnregistered      -> 0 id | 1 | 2 k <cand>* | 3 (nothing parsed, no error) | 7 (key not spellable)
 //   8 n (<key> short)^n allow entry         n names resolved in ONE parser run (one DefaultContext): token j = "--key=j" / "-cj" / line "key = j" (j = 1..n)
 //                                            -> 0 k (j id)^k (the parsed values: token number, option) | 1 | 2 k <cand>* | 7 (some key not spellable)
-// <str> = len bytes.  At the end the context is dumped: size, groups (caption, option names), index entries.
+//   9 k                                      add(group "N" of k GENERATED options named 'o' + the four base-36 digits (0-9 a-z) of 0 .. k-1, no alias characters);
+//                                            k is cut to 70000 on a context without options and keys, to 300 otherwise (evaluation budget)  -> 0 | 1 <key>
+//                                            (a context of more than 65536 options: the option NUMBER stored in the index must still be exact - seeded C14-r15)
+// <str> = len bytes.  At the end the context is dumped: size, groups (caption, option names), index entries; a context of more than 4096 options
+// (op 9 only) is dumped in short: size, groups (caption, size), number of index entries.
 #include "common.h"
 #include <memory>
 #include <map>
@@ -54,6 +58,13 @@ static void addCands(Obs& o, const std::string& what) {
 	}
 	o.add((ll)cs.size());
 	for (size_t i = 0; i != cs.size(); ++i) addStr(o, cs[i]);
+}
+// name of the j-th generated option: 'o' + the four base-36 digits of j
+static std::string genName(ll j) {
+	static const char* D = "0123456789abcdefghijklmnopqrstuvwxyz";
+	std::string s(5, 'o');
+	for (int p = 4; p >= 1; --p) { s[p] = D[j % 36]; j /= 36; }
+	return s;
 }
 template <class F>
 static void guardedAdd(Obs& o, F f) {
@@ -259,9 +270,25 @@ int main() {
 				if (!ok) { o.add(7); }
 				else { parserSequence(o, ctx, toks, allow != 0, entry); }
 			}
+			else if (op == 9) {
+				if (!c.more()) break;
+				ll k = c.next();
+				ll cap = (ctx.size() == 0 && ctx.index_.empty()) ? 70000 : 300;
+				if (k < 0) k = 0;
+				if (k > cap) k = cap;
+				Po::OptionGroup g; g.caption_ = "N";
+				for (ll j = 0; j != k; ++j) g.addOption(Po::SharedOptPtr(new Po::Option(genName(j), 0, "", Po::storeTo(sink))));
+				guardedAdd(o, [&] { ctx.add(g); });
+			}
 			else stop = true;
 		}
 		o.add((ll)ctx.size()); o.add((ll)ctx.groups());
+		if (ctx.size() > 4096) {
+			for (size_t g = 0; g != ctx.groups_.size(); ++g) { addStr(o, ctx.groups_[g].caption()); o.add((ll)ctx.groups_[g].size()); }
+			o.add((ll)ctx.index_.size());
+			o.flush();
+			continue;
+		}
 		for (size_t g = 0; g != ctx.groups_.size(); ++g) {
 			addStr(o, ctx.groups_[g].caption());
 			o.add((ll)ctx.groups_[g].size());
